@@ -162,7 +162,7 @@ def build_all(pairs):
 # which configurations / flavours a property's check uses
 # ------------------------------------------------------------------------------------------------
 def configs_for(prop, tier, seed):
-    cs = cfgmod.curated() + cfgmod.layout_generated(seed, int(os.environ.get('VERIF_LAYOUT_GENERATED', '24' if tier == 'thorough' else '10')))
+    cs = cfgmod.curated() + cfgmod.layout_generated(seed, int(os.environ.get('VERIF_LAYOUT_GENERATED', '28' if tier == 'thorough' else '14')))
     if tier == 'thorough':
         cs = cs + cfgmod.generated(seed, int(os.environ.get('VERIF_GENERATED', '48')))
 
